@@ -5,11 +5,11 @@ VARIABLES l
 tvars == <<vars, l>>
 Line == Trace[l]
 Ev(e) ==
-  CASE e.ev = "Reset" -> Start(0, FALSE)
-    [] e.ev = "Start" -> Start(e.idle, e.ka)
+  CASE e.ev = "Reset" -> Start([x \in Sides |-> 0], FALSE)
+    [] e.ev = "Start" -> Start(Negotiated(e.conf, e.adv), e.ka)
     [] e.ev = "Blocked" -> Blocked(e.id, e.side)
     [] e.ev = "Cause" -> Cause(e.side, e.kind, e.class, e.at)
-    [] e.ev = "Returned" -> Returned(e.id, e.side, e.class, e.at, e.late, e.dt)
+    [] e.ev = "Returned" -> Returned(e.id, e.side, e.class, e.at, e.late, e.dt, Get(e, "ok", FALSE))
     [] e.ev = "Unblocked" -> Unblocked(e.id)
     [] e.ev = "Ctx" -> Ctx(e.side, e.class, e.at)
     [] e.ev = "Delivered" -> Delivered(e.side, e.at)
@@ -18,7 +18,7 @@ Ev(e) ==
     [] e.ev = "Panic" -> Leak
     [] e.ev \in {"Note", "End"} -> UNCHANGED vars
 TraceInit == /\ l = 1 /\ blocked = <<>> /\ cause = [x \in Sides |-> NoCause] /\ seen = [x \in Sides |-> {}]
-             /\ lastRecv = [x \in Sides |-> 0] /\ firstSend = [x \in Sides |-> -1] /\ idle = 0 /\ ka = FALSE /\ step = NoStep
+             /\ lastRecv = [x \in Sides |-> 0] /\ firstSend = [x \in Sides |-> -1] /\ idle = [x \in Sides |-> 0] /\ ka = FALSE /\ step = NoStep
 TraceNext == l <= TraceLen /\ Ev(Line) /\ l' = l + 1
 TraceSpec == TraceInit /\ [][TraceNext]_tvars
 =============================================================================
